@@ -59,6 +59,22 @@ func (r *Reader) createPRVWBox(b *box) (inner box, err error) {
 	inner.size = int64(bmffEndian.Uint32(buf[:4]))
 	inner.remain = int(inner.size)
 	inner.boxType = boxTypeFromBuf(buf[4:8])
+	if inner.size == 1 {
+		// 64-bit size behind the type, as in readInnerBox. The size and type
+		// fields are skipped so that the rest of the header lies where
+		// parsePreviewBox expects it.
+		if buf, err = b.Peek(16); err != nil {
+			return inner, errPRVWBoxPeek
+		}
+		inner.size = int64(bmffEndian.Uint64(buf[8:16]))
+		if inner.size < 16 {
+			return inner, errPRVWBoxPeek
+		}
+		inner.remain = int(inner.size)
+		if _, err = inner.Discard(8); err != nil {
+			return inner, errPRVWBoxDiscard
+		}
+	}
 
 	return inner, nil
 }
